@@ -185,7 +185,9 @@ def check(case, ctx):
         exp = model.MA(e, exp_dims, exp_labs)
     if exp.ndim and exp.values.size == 1:
         ctx.outcomes['single-element-result'] += 1
-    tol = dict(rtol=1e-9, atol=1e-12) if mode == 'tuple' else {}
+    # pairwise summation follows the memory layout: the model (C-ordered copy) and the library (possibly Fortran-ordered
+    # values) may differ in the last bits
+    tol = dict(rtol=1e-9, atol=1e-12) if mode == 'tuple' else dict(rtol=1e-12, atol=1e-12) if sp.get("forder") else {}
     ok = common.expect(ctx, ID, "reduce" if f != 'percentile' else "percentile", label, res, exc, exp=exp, **tol)
     if ok and common.is_da(res):
         from .. import monitors
